@@ -87,6 +87,8 @@ def main():
             # header, implementation files and datasegments belong into the directory of the output PATH all the same), or the directory
             # of the output path is itself reached through a symbolic link
             form = ["linkout", "linkoutabs", "linkdir"][(j // 11) % 3]
+            if form != "linkdir":
+                out = rng.choice(["out.c", "mod.c", "noext", "a.b.c"])          # (a link NAMED like an implementation file is -c's to delete)
         if j % 7 == 3:
             # an output directory whose NAME contains pattern characters: it is a name, taken literally; sibling directories
             # that such a pattern would select hold implementation-file names of their own
@@ -227,6 +229,11 @@ def main():
                 rel = os.path.relpath(outdir, root)
                 pref = "" if rel == "." else rel + "/"
                 own = set(pref + bytes(n).decode() for n in p["written"])
+                # (the module such a run reads is not the one the prediction was made for - one function, or a truncated one whose bodies no
+                #  longer match the reference -: its implementation files may be of either kind, numbered below the function count)
+                own |= {pref + "%s%010d.c" % (sd_, k_) for sd_ in "sd" for k_ in range(max(1, o["nfuncs"]))}
+                if s["form"] in ("linkout", "linkoutabs"):
+                    own.add("elsewhere/realout.c")                              # (the output name is a link to it: it IS the output file)
                 mayvanish = set(pref + bytes(n).decode() for n in p["deleted"])
                 for k in set(before) | set(after):
                     if before.get(k) == after.get(k):
